@@ -225,6 +225,9 @@ def _run_shard(binary, chunk, fn, timeout):
             lines += out[:want]
             break
         lines += out
+        if out and out[-1].startswith("HARNESS-TIMEOUT"):
+            start += len(out)          # the watchdog reported the case itself, then left
+            continue
         lines.append("RUNNER-ABORTED rc=%s" % rc)
         start += len(out) + 1
     os.unlink(fn)
